@@ -68,6 +68,30 @@ pub fn optimise_with(
     res.map(|r| (r, trace))
 }
 
+/// The rule with its `identifiers` map rebuilt so that it *iterates* in the given order (a
+/// permutation of the sorted names). std's HashMap order depends on a per-map random seed, so fresh
+/// maps are drawn until one iterates as requested; None if that did not happen within the cap.
+pub fn with_identifier_order(rule: &Rule, perm: &[usize]) -> Option<Rule> {
+    let mut names: Vec<&String> = rule.detection.identifiers.keys().collect();
+    names.sort();
+    if perm.len() != names.len() {
+        return None;
+    }
+    let want: Vec<&String> = perm.iter().map(|i| names[*i]).collect();
+    for _ in 0..20000 {
+        let mut m: HashMap<String, Expression> = HashMap::new();
+        for n in &names {
+            m.insert((*n).clone(), rule.detection.identifiers[*n].clone());
+        }
+        if m.keys().collect::<Vec<_>>() == want {
+            let mut r = rule.clone();
+            r.detection.identifiers = m;
+            return Some(r);
+        }
+    }
+    None
+}
+
 pub fn canon_ids(ids: &HashMap<String, Expression>) -> String {
     let mut v: Vec<String> = ids.iter().map(|(k, e)| format!("{}={}", k, e)).collect();
     v.sort();
